@@ -33,7 +33,7 @@ OPSB = ['anda', 'ora', 'xora', 'and', 'or', 'xor', 'eq', 'assign']              
 # whole-object replacement from the operand B: vector<bool> (copy, move), DynamicBitset, std::bitset<N> (assignment
 # and construction; N = size of B, instantiated in the harness for BS_SIZES)
 OPSA = ['assignmv', 'assigndb', 'ctormv', 'assignbs', 'ctorbs']
-BS_SIZES = (1, 2, 3, 4, 5, 6, 7, 8, 9, 10, 16, 63, 64, 65, 100)
+BS_SIZES = (0, 1, 2, 3, 4, 5, 6, 7, 8, 9, 10, 16, 63, 64, 65, 100)
 
 
 def _bits(s):
@@ -293,8 +293,6 @@ def gen_cases(tier, rng):
     for a in _all_bitsets(4):
         for b in _all_bitsets(4):
             for o in OPSA:
-                if o in ('assignbs', 'ctorbs') and b == '-':
-                    continue
                 cases.append('%s %s %s' % (a, b, o))
                 cases.append('%s %s setall,%s,flip:1' % (a, b, o))
     for nb in (16, 63, 64, 65, 100):
